@@ -75,9 +75,9 @@ claim("C19", "other",
       "Not decided: uniform spacing, edge placement within one sample, amplitude bound (floating point).",
       "DESIGN.md §3 C19")
 claim("C20", "other",
-      "path-sensitive interpretation of update_ay and of one play() iteration (mono, stereo) for symbolic player state and buffer; symbol-provenance non-interference; sibling comparison",
-      "R13 skip rule, register copies, samples_per_frame, frame pacing per iteration, chunking independence (no dependence on buffer length/position/processed count), mono/stereo agreement, frame_registers bounds.",
-      "Not decided: transposition in Vtx::load and the total sample count (no induction over the loop).",
+      "path-sensitive interpretation of update_ay and of one play() iteration (mono, stereo) for symbolic player state and buffer; symbol-provenance non-interference; sibling comparison; loop summarisation of the transposition in Vtx::load by one arbitrary iteration analysed from a cut point",
+      "R13 skip rule, register copies, samples_per_frame, frame pacing per iteration, chunking independence (no dependence on buffer length/position/processed count), mono/stereo agreement, frame_registers bounds, register-major to frame-major transposition (index map, bounds, one byte per iteration, empty start).",
+      "Not decided: the total sample count (no induction over play's loop).",
       "DESIGN.md §3 C20")
 claim("C16", "other",
       "intraprocedural taint of stopwatch readings; mod-ref isolation of sound-generation state over the resolved call graph; who-may-call on LoadableAsset::read; path-sensitive check of read_exact; per-step effect pairing of emulate_frames (events taken from the controller are acted upon before the step ends); absence scan with a positive control",
